@@ -1141,3 +1141,79 @@ CURVE_TOLERANCE_TABLE = {
     ('ROC', 1.0, 0.1): 'class test on the 0/1 truth label (column 0), not on a score',
     ('PrecisionRecall', 1.0, 0.1): 'class test on the 0/1 truth label (column 0), not on a score',
 }
+
+
+SOLVER_TOLERANCE_TABLE = {
+    ('SVD', 0.0, 1e-6): 'eigenvalues below 1e-6 are treated as zero when the singular values are formed (rank decision of the eigen-based SVD)',
+    ('SolveLSE', 0.0, 1e-4): 'pivot / zero tests of the Gauss elimination with row exchange (the sites the pivot-guard rule G.pivot relies on)',
+}
+
+
+def secondary_inductions(chk, prog, funcs_by_unit, rule='IND.complete'):
+    """a scalar that is advanced once per iteration at the top level of a loop body (sign = -sign; l++; pos += n) is a function of the
+    loop index only if EVERY iteration advances it: a `continue` that can be taken before the update desynchronises it"""
+    R = chk.rule(rule, 'a scalar advanced once per iteration at the top level of a loop body (alternating sign, running position) is advanced on '
+                 'every iteration: no `continue` of that loop can be taken before the update')
+    n_inst = 0
+    for unit, names in funcs_by_unit.items():
+        for nm in names:
+            f = prog.funcs.get(nm)
+            if f is None or f.body is None:
+                continue
+            for loop in walk(f.body):
+                if loop.get('kind') not in ('ForStmt', 'WhileStmt'):
+                    continue
+                body = kids(loop)[-1]
+                if body.get('kind') != 'CompoundStmt':
+                    continue
+                ind = flow.induction(loop) if loop.get('kind') == 'ForStmt' else None
+                ivar = ind['var'].split('#')[0] if ind else None
+                stmts = kids(body)
+                for pos, st in enumerate(stmts):
+                    s0 = strip(st)
+                    v = None
+                    if s0.get('kind') == 'UnaryOperator' and s0.get('opcode') in ('++', '--') and strip(kids(s0)[0]).get('kind') == 'DeclRefExpr':
+                        v = strip(kids(s0)[0])['referencedDecl'].get('name')
+                    elif s0.get('kind') == 'CompoundAssignOperator' and strip(kids(s0)[0]).get('kind') == 'DeclRefExpr' and \
+                            not any(y.get('kind') == 'ArraySubscriptExpr' for y in walk(kids(s0)[1])):
+                        v = strip(kids(s0)[0])['referencedDecl'].get('name')
+                    elif s0.get('kind') == 'BinaryOperator' and s0.get('opcode') == '=' and strip(kids(s0)[0]).get('kind') == 'DeclRefExpr':
+                        nm_ = strip(kids(s0)[0])['referencedDecl'].get('name')
+                        r = kids(s0)[1]
+                        if any(y.get('kind') == 'DeclRefExpr' and y['referencedDecl'].get('name') == nm_ for y in walk(r)) and \
+                                not any(y.get('kind') in ('ArraySubscriptExpr', 'CallExpr') for y in walk(r)):
+                            v = nm_
+                    if v is None or v == ivar:
+                        continue
+                    # is the variable also read elsewhere in the body (otherwise it is a plain counter of executed iterations)
+                    used = any(y.get('kind') == 'DeclRefExpr' and y['referencedDecl'].get('name') == v for x in stmts[:pos] + stmts[pos + 1:] for y in walk(x))
+                    if not used:
+                        continue
+                    n_inst += 1
+                    # a continue of THIS loop before the update
+                    early = None
+                    for x in stmts[:pos]:
+                        for y in _own_continues(x):
+                            early = y
+                    desc = '%s %s: `%s` advances `%s` once per iteration' % (f.unit.where(s0), nm, f.unit.text(s0)[:40], v)
+                    if early is None:
+                        chk.instance(R, desc + ' on every path')
+                    else:
+                        chk.instance(R, desc + ' but can be skipped', 'refuted')
+                        chk.violation(Finding(rule, rel(f.file), nm, 'skipped:%s' % v, f.unit.where(early),
+                                              '%s: `%s` is advanced by `%s` at the end of each iteration, but the `continue` at %s skips that update: from then '
+                                              'on `%s` no longer corresponds to the loop index (every later term gets the wrong sign / position)'
+                                              % (nm, v, f.unit.text(s0)[:40], f.unit.where(early), v)))
+    return n_inst
+
+
+def _own_continues(n):
+    """continue statements inside n that bind to the enclosing loop of n (not to a loop nested in n)"""
+    out = []
+    if n.get('kind') == 'ContinueStmt':
+        return [n]
+    if n.get('kind') in ('ForStmt', 'WhileStmt', 'DoStmt'):
+        return []
+    for c in kids(n):
+        out += _own_continues(c)
+    return out
